@@ -839,14 +839,23 @@ class Pile(Widget, WidgetContainerMixin, WidgetContainerListContentsMixin):
             if canv:
                 combinelist.append((canv, i, item_focus))
 
+        # the height of a packed item is its widget's own answer: the result depends on it even when nothing of it is drawn
+        hidden = [w for height, (w, (f, _)) in zip(heights, self.contents) if height <= 0 and f == WHSettings.PACK]
+
         if not combinelist:
-            return SolidCanvas(" ", size[0], (size[1:] + (0,))[0])
+            blank = SolidCanvas(" ", size[0], (size[1:] + (0,))[0])
+            if hidden:
+                blank = CompositeCanvas(blank)
+                blank.set_depends(hidden)
+            return blank
 
         out = CanvasCombine(combinelist)
         if len(size) == 2 and size[1] != out.rows():
             # flow/fixed widgets rendered too large/small
             out = CompositeCanvas(out)
             out.pad_trim_top_bottom(0, size[1] - out.rows())
+        if hidden:
+            out.set_depends([self.contents[i][0] for _canv, i, _focus in combinelist] + hidden)
         return out
 
     def get_cursor_coords(self, size: tuple[()] | tuple[int] | tuple[int, int]) -> tuple[int, int] | None:
